@@ -436,7 +436,13 @@ class NostrQuery(BaseModel):
         try:
             for k, v in obj.items():
                 if k.startswith("#") and len(k) == 2 and isinstance(v, list):
-                    tags.append((k[1], set(v)))
+                    try:
+                        v = set(v)
+                    except TypeError:
+                        # an unhashable item (a nested array or object) cannot be
+                        # a tag value: left as it is, the validation below refuses it
+                        pass
+                    tags.append((k[1], v))
             tags.sort(reverse=True)
         except AttributeError:
             raise StorageError("not a query")
